@@ -96,7 +96,8 @@ def run_case(case, ctx):
                 if not cand:
                     continue
                 u = cand[op[1] % len(cand)]
-                u["idle"] = 0
+                if kind != "fill" or not u.get("w"):
+                    u["idle"] = 0          # a call really reaches the server and restarts its inactivity timer
                 try:
                     if kind == "fill":
                         ln = max(1, u["size"] * (1 + op[2]) // 101)
